@@ -34,6 +34,54 @@ impl Prop for C06 {
 
     fn generate(&self, rng: &mut Rng, _tier: Tier, stats: &mut GenStats) -> StreamScenario {
         let mode = gen::pick_mode(rng);
+        if rng.chance(1, 50) {
+            // A schedule that the mix below reaches too rarely to rely on (it fell out of the
+            // quick tier's reach twice when other generator changes shifted the random stream):
+            // a keep-alive's reply gets 0..3 bytes out, the read is dropped there, and the next
+            // write does not get through either (refused by the encoder, or dropped in turn);
+            // the reply must still come out whole, before anything else.
+            let mut inbound = gen::keepalive(mode);
+            for _ in 0..rng.below(3) {
+                inbound.extend_from_slice(&gen::tiny(mode, rng.byte() | 1, 3));
+            }
+            let mut writes = Vec::new();
+            let k = rng.below(4) as usize;
+            if k > 0 {
+                writes.push(WriteEv::Accept(k));
+            }
+            for _ in 0..rng.usize(2, 5) {
+                writes.push(WriteEv::Pending);
+            }
+            for _ in 0..rng.usize(0, 6) {
+                writes.push(if rng.chance(1, 3) { WriteEv::Pending } else { WriteEv::Accept(rng.usize(1, 9)) });
+            }
+            let mut ops = vec![AppOp::ReadCancel { polls: rng.usize(1, 2) as u32 }];
+            match (rng.below(2), gen::gen_unencodable_frame(rng, mode)) {
+                (0, Some(u)) => ops.push(AppOp::Write(u)),
+                _ => ops.push(AppOp::WriteCancel { frame: gen::gen_out_frame(rng, mode, stats), polls: rng.below(2) as u32 }),
+            }
+            if rng.chance(1, 2) {
+                ops.push(AppOp::Read);
+            }
+            ops.push(AppOp::Write(gen::gen_out_frame(rng, mode, stats)));
+            ops.push(AppOp::Drain { max: 8 });
+            let n = inbound.len();
+            return StreamScenario {
+                imp: Imp::Tokio,
+                mode,
+                verify_version: false,
+                explicit_gate: false,
+                flushes: vec![],
+                buffered: false,
+                gate_calls: vec![],
+                trace: rng.chance(1, 8),
+                via_builder: None,
+                inbound,
+                reads: vec![crate::scenario::ReadEv::Data(n), crate::scenario::ReadEv::Eof],
+                writes,
+                ops,
+            };
+        }
         let imp = if rng.chance(1, 2) { Imp::Blocking } else { Imp::Tokio };
         // inbound: keep-alives (so that library-initiated replies are part of the write stream)
         // mixed with other frames; read side healthy.
